@@ -5,6 +5,7 @@ import ipaddress
 import os
 import random
 import socket
+import struct
 import sys
 import time
 
@@ -237,6 +238,34 @@ def main():
                         r, err = dnslib.tcp_query(target, dnslib.build_query(1, name, edns=1232), src=src, family=fam, timeout=5.0)
                         primed = r is not None and (dnslib.parse(r).rcode & 0xF) == 0
                         break
+                # a refused client that echoes the server cookie it found in its REFUSED reply stays refused
+                for (cname, cmodel, fam, src, target) in dns_clients:
+                    if first_match(rules, cmodel, "dns") is not False:
+                        continue
+                    cc = bytes(range(8))
+                    q1 = dnslib.build_query(900, "cookie%d.acl.test" % ti, edns=1232, options=struct.pack(">HH", 10, 8) + cc)
+                    r1, _e = dnslib.tcp_query(target, q1, src=src, family=fam, timeout=5.0)
+                    sc = None
+                    if r1 is not None:
+                        p1 = dnslib.parse(r1)
+                        if p1.opt:
+                            for code, val in dnslib.opt_options(p1.opt["rdata"]):
+                                if code == 10 and len(val) > 8:
+                                    sc = val
+                    if sc:
+                        mark = len(ups[0].events)
+                        q2 = dnslib.build_query(901, "cookie%d.acl.test" % ti, edns=1232, options=struct.pack(">HH", 10, len(sc)) + sc)
+                        r2, _e = dnslib.tcp_query(target, q2, src=src, family=fam, timeout=5.0)
+                        leg.eval()
+                        rc2 = (dnslib.parse(r2).rcode & 0xF) if r2 is not None else None
+                        fwd = len([e for e in ups[0].events[mark:] if e["kind"] == "query"])
+                        ok2 = rc2 == 5 and fwd == 0
+                        leg.cls("dns|cookie-echo|%s" % ("still-refused" if ok2 else "let-in"))
+                        if not ok2:
+                            leg.violation("C08/dns-refused-client-let-in-after-echoing-the-server-cookie",
+                                          "table %s: %s, refused, echoes the server cookie from its REFUSED reply -> rcode %s, %d upstream transmissions" % (table, cname, rc2, fwd),
+                                          {"engine": "c08-e2e", "table": table, "client": cname, "config": conf})
+                    break
                 for qi, (cname, cmodel, fam, src, target) in enumerate(dns_clients):
                     want = first_match(rules, cmodel, "dns")
                     for qname in (name, "fresh%d-%d.acl.test" % (ti, qi)):
